@@ -53,8 +53,10 @@ func VerifH_c17_scan_step() {
 	dsc := cs.ds.newDataStoreCommand()
 	size := []int{16, 32}[vChoice("size", 2)]
 	occ := make([]bool, size)
-	switch vChoice("pattern", 4) {
+	pattern := vChoice("pattern", 5)
+	switch pattern {
 	case 0: // only the tracked bucket
+	case 4: // an empty table (everything was deleted during the iteration)
 	case 1: // everything
 		for i := range occ {
 			occ[i] = true
@@ -70,7 +72,9 @@ func VerifH_c17_scan_step() {
 	if vTier() > 0 {
 		p = vChoice("tracked-any", size)
 	}
-	occ[p] = true
+	if pattern != 4 {
+		occ[p] = true
+	}
 	rd := vMkDict(size, occ)
 	// any 32-bit cursor: the position bits are forked on, the bits above the
 	// table mask are arbitrary (symbolic)
@@ -163,7 +167,7 @@ func VerifH_c17_full_iteration() {
 	}
 	count := vItoa(1 + vChoice("count", 3))
 	mutateAt := vChoice("mutate-at", 4) // after this many calls
-	mutation := vChoice("mutation", 3)  // 0 none, 1 grow (add up to the pool), 2 shrink (delete most)
+	mutation := vChoice("mutation", 4)  // 0 none, 1 grow (add up to the pool), 2 shrink (delete most), 3 delete everything
 	seen := make([]bool, pool)
 	cursor := "0"
 	calls := 0
@@ -178,6 +182,12 @@ func VerifH_c17_full_iteration() {
 				}
 			case 2:
 				for i := 1; i < initial; i++ {
+					del(i)
+					always[i] = false
+				}
+			case 3:
+				// the collection becomes empty in the middle of the iteration
+				for i := 0; i < initial; i++ {
 					del(i)
 					always[i] = false
 				}
